@@ -326,7 +326,7 @@ func (r *r1) walkContext(x *r1Context) {
 	r.nContexts++
 	cfg := &core.Config{EmitAccess: true, Follow: func(fn *types.Func) bool {
 		d := c.Prog.Decl(fn)
-		return d != nil && c.InScope(RelPkg(d.Pkg.PkgPath)) && transfersLock(d)
+		return d != nil && c.InScope(RelPkg(d.Pkg.PkgPath)) && (transfersLock(d) || publishesByClose(d))
 	}}
 	e := core.Entry{Decl: x.decl, Lit: x.lit, Pkg: x.pkg, Outer: x.outer, Locks: x.locks, Binds: x.binds, Name: x.key}
 	outer := x.outer
@@ -366,6 +366,12 @@ func (r *r1) walkContext(x *r1Context) {
 				o := info.Uses[id]
 				if o == nil {
 					o = info.Defs[id]
+				}
+				if o != nil && !fresh[o] && ev.Frame.Parent != nil {
+					// a parameter or receiver of a function walked in place stands for the caller's variable
+					if av := aliasOf(p, ev, id); av != nil && fresh[av] {
+						return av, true
+					}
 				}
 				return o, o != nil && fresh[o]
 			}
@@ -1132,4 +1138,27 @@ func methodValueBoundInCallee(c *Ctx, rest []*core.Event, node ast.Node) bool {
 		}
 	}
 	return false
+}
+
+// publishesByClose: an unexported function that closes a channel-typed field (the publication step of
+// the election idiom moved into a helper: store the result, close done). It is walked in place by R1
+// so that the election made by its caller and the close are seen on one path.
+func publishesByClose(d *core.FuncDecl) bool {
+	if d == nil || d.Decl.Body == nil || d.Obj.Exported() {
+		return false
+	}
+	found := false
+	ast.Inspect(d.Decl.Body, func(n ast.Node) bool {
+		if call, ok := n.(*ast.CallExpr); ok && len(call.Args) == 1 {
+			if id, ok := unparen(call.Fun).(*ast.Ident); ok && id.Name == "close" {
+				if fv := fieldVar(call.Args[0], &core.Frame{Pkg: d.Pkg}); fv != nil {
+					if _, isCh := fv.Type().Underlying().(*types.Chan); isCh {
+						found = true
+					}
+				}
+			}
+		}
+		return !found
+	})
+	return found
 }
